@@ -264,6 +264,10 @@ C["C01"]["harnesses"] += [URLRUN]
 C["C10"]["harnesses"] += [URLRUN]
 C["C01"]["assumptions"] += ["web-seed downloader: HTTP client replaced by a server model (status + body per range request); request construction (net/http, net/url) not encoded"]
 
+C["C04"]["harnesses"] += [
+    H("ZZVerifyFindsDamage", "torrent", "a complete, seeding torrent is verified by hand; the verification finds an arbitrary subset of the pieces: it ends stopped with the completion flag == every piece verified; started again it is Seeding only if every piece verified, else Downloading; lifecycle invariant after every step", T(40, 600, flags=["-nospawn"]), T(40, 600, flags=["-nospawn"]), replay="model"),
+]
+
 for pid, spec in C.items():
     spec = dict(property=pid, **spec)
     json.dump(spec, open(os.path.join(D, pid + ".json"), "w"), indent=1)
